@@ -7,15 +7,18 @@ Value encoding `<venc>` (no spaces, `,`-separated prefix tokens; see `harness/co
 Results: `ok:<venc>` | `err` | `panic` (| `none` | `hang` from the harness only).
 -/
 import SwimVerif.Model.Recon
+import SwimVerif.Model.Utf8
 
 namespace SwimVerif.Recon
 
 /-! ## bytes, text -/
 
-def charsOfBytes (bs : List Nat) : Option (List Char) :=
-  (String.fromUTF8? ⟨(bs.map UInt8.ofNat).toArray⟩).map String.toList
+/-- `std::str::from_utf8` on a byte list (each element `< 256`): the hand-written structural decoder of `Model/Utf8.lean`
+(until `w-C09b`: core's `String.fromUTF8?`; the two are compared with the real decoder on every byte cut by `chunksm`). -/
+def charsOfBytes (bs : List Nat) : Option (List Char) := SwimVerif.Utf8.decode bs
 
-def bytesOfChars (cs : List Char) : List Nat := (String.ofList cs).toUTF8.toList.map UInt8.toNat
+/-- `str::as_bytes`: the hand-written encoder of `Model/Utf8.lean`. -/
+def bytesOfChars (cs : List Char) : List Nat := SwimVerif.Utf8.encode cs
 
 def charsOfHex (h : String) : Option (List Char) := (bytesOfHex h).bind charsOfBytes
 
